@@ -400,7 +400,9 @@ def scenarios(tier: str):
     two = ['p1', 'p2']
     three = ['p1', 'p2', 'p3']
     for ev in alphabet(two, tier):
-        out.append({'kind': 'bfs', 'peers': two, 'depth': 3 if tier == 'quick' else 5, 'first': list(ev)})
+        # measured: depth 4 is ~40 000 executions / 270 s per first event (26 of them), depth 5 did not finish one
+        # first event in 10 minutes
+        out.append({'kind': 'bfs', 'peers': two, 'depth': 3 if tier == 'quick' else 4, 'first': list(ev)})
     for ev in alphabet(three, tier):
         out.append({'kind': 'bfs', 'peers': three, 'depth': 2 if tier == 'quick' else 3, 'first': list(ev)})
     seeds = [
